@@ -50,7 +50,7 @@ def run(chk):
                 lines.append(f"(exec p{i}_{k} parse {C.hx(p)})")
     runs = []
     for rep in range(2 if quick else 4):
-        res, _ = C.run_cases({"debug": lines, "release": lines}, f"C10_rep{rep}", shards=4)
+        res, _ = C.run_cases({"debug": lines, "release": lines}, f"C10_rep{rep}", shards=4, confirm=False)   # runs cut off by the limit are discarded below
         runs.append(res)
     bad = 0
     for i, p in enumerate(progs):
